@@ -28,6 +28,7 @@ import (
 
 	"github.com/pilosa/pilosa"
 	"github.com/pilosa/pilosa/test"
+	"github.com/pilosa/pilosa/toml"
 
 	"verif/harness/behav"
 )
@@ -186,6 +187,9 @@ func newClus(t testing.TB, n int) (cl *clus, err error) {
 	c := test.MustNewCluster(t, n)
 	for _, m := range c {
 		m.Config.AntiEntropy.Interval = 0 // passes run only when the behaviour says so
+		// no periodic complete state exchange: a schema that arrives by push/pull just before
+		// the CreateIndex / CreateField message makes that message fail ("already exists")
+		m.Config.Gossip.PushPullInterval = toml.Duration(6 * time.Hour)
 	}
 	if err := c.Start(); err != nil {
 		return nil, err
@@ -222,11 +226,14 @@ func (cl *clus) close() {
 func (cl *clus) createIndex(name string) error {
 	ctx := context.Background()
 	api := cl.node(0).API
-	if _, err := api.CreateIndex(ctx, name, pilosa.IndexOptions{}); err != nil {
+	// (a node that learnt the schema from a status exchange first answers the broadcast
+	// with "already exists"; the wait below decides whether every node has everything)
+	exists := func(err error) bool { return err != nil && strings.Contains(err.Error(), "already exists") }
+	if _, err := api.CreateIndex(ctx, name, pilosa.IndexOptions{}); err != nil && !exists(err) {
 		return err
 	}
 	for _, f := range []string{"f", "g"} {
-		if _, err := api.CreateField(ctx, name, f, pilosa.OptFieldTypeSet("ranked", 100)); err != nil {
+		if _, err := api.CreateField(ctx, name, f, pilosa.OptFieldTypeSet("ranked", 100)); err != nil && !exists(err) {
 			return err
 		}
 	}
@@ -272,6 +279,7 @@ type Case struct {
 	Selftest int             `json:"selftest,omitempty"`
 	idx      int
 	applied  bool // self-test: an expectation was falsified
+	retried  bool
 }
 
 type mismatch struct {
@@ -803,6 +811,12 @@ func one(res *behav.Result, p *pool, cs *Case) {
 	}
 	if err != nil {
 		cl.close()
+		if !cs.retried { // a set-up problem (schema propagation under load): once more on a fresh cluster
+			cs.retried = true
+			res.Cover("setup_retry")
+			one(res, p, cs)
+			return
+		}
 		res.SetInconclusive("harness: " + err.Error())
 		return
 	}
